@@ -495,6 +495,10 @@ func (s *c19Spec) core(kind string, c c19Ctx, m int64) c19Res {
 		}
 		s.trace = append(s.trace, c19Ev{K: 'C', Ctx: c, M: m})
 	default:
+		if poison {
+			// critical message extension: executeItem answers Feature Not Supported (8) for the item, no handler runs
+			return c19Res{Resp: &c19Resp{-(1 + m), 0}, Err: c19i(8)}
+		}
 		s.trace = append(s.trace, c19Ev{K: 'C', Ctx: c, M: m})
 	}
 	n := s.n
@@ -680,12 +684,19 @@ func c19UnBE(b []byte) int64 {
 
 // --- messages
 
+// c19MkItem builds the batch item with absolute id `id`; a poisoned id carries a critical message
+// extension: executeItem (the innermost stage of the batch-item chain) rejects it before any handler is
+// looked up - whatever the middlewares in front of it do, they run first.
 func c19MkItem(id int64) kmip.RequestBatchItem {
-	return kmip.RequestBatchItem{
+	it := kmip.RequestBatchItem{
 		Operation:         kmip.OperationActivate,
 		UniqueBatchItemID: c19BE(id),
 		RequestPayload:    &payloads.ActivateRequestPayload{UniqueIdentifier: fmt.Sprintf("m%d", id)},
 	}
+	if id%1000 >= 500 {
+		it.MessageExtension = &kmip.MessageExtension{VendorIdentification: "c19", CriticalityIndicator: true, VendorExtension: ttlv.Struct{}}
+	}
+	return it
 }
 
 // c19MkMsg builds the request message with absolute id `id`; on the server a poisoned id
